@@ -32,7 +32,8 @@ def _base(draw):
         s = s[:pos] + [x[:] if ndim > 1 else x for x in q] + s[pos + len(q):]
     pen = draw(st.sampled_from([0, 0.1, 0.5, 1.0, None])) if regime == 'L' else \
         draw(st.one_of(st.sampled_from([0, 0.1]), st.floats(0.01, 5.0, allow_nan=False)))
-    return {'query': q, 'series': s, 'ndim': ndim, 'penalty': pen}
+    lay = st.sampled_from(['C', 'C', 'F', 'strided', 'Tview'])
+    return {'query': q, 'series': s, 'ndim': ndim, 'penalty': pen, 'layout_q': draw(lay), 'layout_s': draw(lay)}
 
 
 ITER = st.fixed_dictionaries({'k': st.one_of(st.none(), st.integers(1, 6)), 'overlap': st.integers(0, 3),
@@ -66,11 +67,28 @@ def _case_hist(draw):
     return c
 
 
+def _layout(a, kind):
+    """The same values in another memory layout (the result may depend on the numeric content only)."""
+    import numpy as np
+    if kind in (None, 'C'):
+        return a
+    if kind == 'F':
+        return np.asfortranarray(a)
+    if kind == 'Tview' and a.ndim == 2:
+        return np.ascontiguousarray(a.T).T            # channel-first data seen through .T
+    big = np.full(tuple(2 * n for n in a.shape), 333.25)
+    if a.ndim == 1:
+        big[::2] = a
+        return big[::2]
+    big[::2, ::2] = a
+    return big[::2, ::2]
+
+
 def _mk(case, use_c):
     import numpy as np
     from dtaidistance.subsequence.subsequencealignment import SubsequenceAlignment
-    q = np.array(case['query'], dtype=np.double)
-    s = np.array(case['series'], dtype=np.double)
+    q = _layout(np.array(case['query'], dtype=np.double), case.get('layout_q'))
+    s = _layout(np.array(case['series'], dtype=np.double), case.get('layout_s'))
     pen = case['penalty']
     kw = {} if pen is None else {'penalty': pen}
     return SubsequenceAlignment(q, s, use_c=use_c, **kw), (0.1 if pen is None else pen)
@@ -101,6 +119,8 @@ def run_align(case):
     q, s = case['query'], case['series']
     lq, ls = len(q), len(s)
     res.cls('ndim=%d' % case['ndim'], 'series<query' if ls < lq else 'series>=query')
+    if case.get('layout_q', 'C') != 'C' or case.get('layout_s', 'C') != 'C':
+        res.cls('non-C-layout')
     mfs = {}
     pen = None
     expm = None
